@@ -162,13 +162,21 @@ def _solve(z3, e, neg, timeout_ms):
 
 
 def _from_library(exc):
+    """True when the exception was raised by (or below) library code and not from inside the engine's own operator handlers."""
     tb = exc.__traceback__
+    last_lib = last_engine = -1
+    i = 0
     while tb is not None:
         fn = tb.tb_frame.f_code.co_filename
         if fn.startswith(REPO + "/inferno"):
-            return True
+            last_lib = i
+        elif fn.startswith(VERIF + "/symtorch") and not fn.endswith("/replay.py"):
+            last_engine = i
         tb = tb.tb_next
-    return False
+        i += 1
+    if getattr(exc, "_symtorch_as_torch", False):
+        return last_lib >= 0
+    return last_lib >= 0 and last_lib > last_engine
 
 
 def _replay_once(fn, cfg, model, choices, opts, f64):
